@@ -236,6 +236,38 @@ type Discharger struct {
 	Workers   int
 	SecondGround string // if set, every ground-family instance is re-checked on this solver (independent Float64 implementation)
 	KeepFailed string // directory where failed obligations are written
+	// failure budget: once this many obligations ended without a definite answer (timeout / unknown / no answer), or the
+	// wall budget is used up while at least one obligation has failed, the remaining solver jobs are not started: the
+	// check fails anyway, and a tree on which hundreds of queries time out would otherwise keep it busy for hours.
+	// Never triggers while every obligation discharges.
+	SlowBudget int
+	WallBudget time.Duration
+	slowFails  int64
+	anyFail    int64
+	started    time.Time
+	Skipped    int64
+}
+
+func (d *Discharger) aborted() bool {
+	if d.SlowBudget > 0 && atomic.LoadInt64(&d.slowFails) >= int64(d.SlowBudget) {
+		return true
+	}
+	if d.WallBudget > 0 && atomic.LoadInt64(&d.anyFail) > 0 && time.Since(d.started) > d.WallBudget {
+		return true
+	}
+	return false
+}
+
+func (d *Discharger) account(obs []*Oblig) {
+	for _, o := range obs {
+		if o.ok() || o.Result == "skipped" {
+			continue
+		}
+		atomic.AddInt64(&d.anyFail, 1)
+		if o.Result != "sat" && o.Result != "unsat" && o.Result != "disagree" {
+			atomic.AddInt64(&d.slowFails, 1)
+		}
+	}
 }
 
 // mergeSameContext: heavy (quantified) obligations that share the very same assumptions (same path, same program point)
@@ -374,6 +406,9 @@ func (d *Discharger) discharge(groups [][]*Oblig) {
 	ctx := context.Background()
 	var wg sync.WaitGroup
 	sem := make(chan struct{}, d.Workers)
+	if d.started.IsZero() {
+		d.started = time.Now()
+	}
 	// fast path: floating-point-free strengthenings (assumptions without FP atoms, goal = negated guard)
 	for ji := range jobs {
 		var lites, origs []*Oblig
@@ -420,6 +455,14 @@ func (d *Discharger) discharge(groups [][]*Oblig) {
 		go func(jb job) {
 			defer wg.Done()
 			defer func() { <-sem }()
+			if d.aborted() {
+				for _, o := range jb.obs {
+					o.Result, o.Solver, o.Note = "skipped", "", "not attempted: the failure budget of this run was used up by other obligations"
+					atomic.AddInt64(&d.Skipped, 1)
+				}
+				return
+			}
+			defer d.account(jb.obs)
 			if jb.heavy && len(jb.obs) == 1 {
 				// quick attempt on the primary solver, then the whole portfolio concurrently
 				o := jb.obs[0]
@@ -464,7 +507,7 @@ func (d *Discharger) discharge(groups [][]*Oblig) {
 	var retry []*Oblig
 	for _, g := range groups {
 		for _, o := range g {
-			if !o.ok() {
+			if !o.ok() && o.Result != "skipped" {
 				retry = append(retry, o)
 			}
 		}
@@ -479,7 +522,7 @@ func (d *Discharger) discharge(groups [][]*Oblig) {
 		go func(o *Oblig) {
 			defer wg.Done()
 			defer func() { <-sem }()
-			if o.Result == "disagree" {
+			if o.Result == "disagree" || d.aborted() {
 				return
 			}
 			d.race(ctx, o)
